@@ -428,10 +428,30 @@ func (e *Engine) checkInvariants(st *State, li *loopInfo, ctx *LoopCtx, kind str
 		return
 	}
 	sc := e.loopSpecCtx(st, ctx)
+	// index just processed (range loops): $i - 1
+	var last *Term
+	if kind == "inv.preserve" {
+		func() {
+			defer func() { recover() }()
+			v, _ := sc.ident("$i")
+			last = e.tb.Sub(v.T[0], e.tb.Int(1))
+		}()
+	}
 	for i, inv := range ctx.Spec.Invariants {
 		name := fmt.Sprintf("loop%d.%d", li.Ord, i+1)
 		if inv.Name != "" {
 			name = fmt.Sprintf("loop%d.%s", li.Ord, inv.Name)
+		}
+		if q, ok := inv.E.(*SQuant); ok && q.Forall && last != nil && len(q.Pats) == 0 {
+			// preservation of "forall k < $i: P(k)": the element just completed and the earlier ones are separate obligations;
+			// for the earlier ones k differs from the index written in this iteration, so reads over those writes simplify
+			c1 := *sc
+			c1.splitMode, c1.splitTerm = 1, last
+			e.oblige(st, kind, name+"/new", pos, e.evalClause(&c1, inv), "loop invariant (element just processed): "+inv.Src)
+			c2 := *sc
+			c2.splitMode, c2.splitTerm = 2, last
+			e.oblige(st, kind, name+"/kept", pos, e.evalClause(&c2, inv), "loop invariant (earlier elements): "+inv.Src)
+			continue
 		}
 		e.oblige(st, kind, name, pos, e.evalClause(sc, inv), "loop invariant: "+inv.Src)
 	}
